@@ -192,9 +192,18 @@ func init() {
 			return &shaIn{Data: hex.EncodeToString(b)}
 		}, func(in *shaIn) any { return runSha(*in) })
 	})
+	// gohash: SafeChars logs only (the C10 predicate must hold on every case);
+	// gohashx: logs violating SafeChars (known mismatch classes, reported by sig).
+	// Both are answered by the Lean handler "gohash".
 	gen.Register("gohash", func(c *gen.Ctx) error {
 		return replayOr(c, "gohash", func() *logIn {
-			l := genLog(c.R, c.Wide)
+			l := genLog(c.R, c.Wide, false)
+			return &l
+		}, func(in *logIn) any { return runGoHash(in) })
+	})
+	gen.Register("gohashx", func(c *gen.Ctx) error {
+		return replayOr(c, "gohash", func() *logIn {
+			l := genLog(c.R, c.Wide, true)
 			return &l
 		}, func(in *logIn) any { return runGoHash(in) })
 	})
@@ -203,5 +212,81 @@ func init() {
 			p := genPayload(c.R, c.Wide)
 			return &p
 		}, func(in *payloadIn) any { return runPayload(in) })
+	})
+}
+
+// ---- chain: sequential ChainLog (C09) ----------------------------------------------
+
+type chainIn struct {
+	Logs []logIn `json:"logs"`
+}
+
+type chainOut struct {
+	// hex of the hash of each log after the real Log.ChainLog(previous)
+	Hashes []string `json:"hashes"`
+	IDs    []uint64 `json:"ids"`
+	Panic  string   `json:"panic,omitempty"`
+}
+
+func runChain(in *chainIn) (out chainOut) {
+	out.Panic = gen.Guard(func() {
+		var previous *ledger.Log
+		for i := range in.Logs {
+			l := &in.Logs[i]
+			log, err := l.toLog()
+			if err != nil {
+				panic(err)
+			}
+			if is, ok := log.Data.(ledger.InsertedSchema); ok {
+				b, err := json.Marshal(is.Schema)
+				if err != nil {
+					panic(err)
+				}
+				l.Payload.Schema = hex.EncodeToString(b)
+			}
+			chained := log.ChainLog(previous)
+			out.Hashes = append(out.Hashes, hex.EncodeToString(chained.Hash))
+			out.IDs = append(out.IDs, *chained.ID)
+			previous = &chained
+		}
+	})
+	return out
+}
+
+func genChain(c *gen.Ctx, withSchemaVersion bool) *chainIn {
+	n := 1 + c.R.Intn(6)
+	if c.Wide && c.R.Intn(10) == 0 {
+		n = 1 + c.R.Intn(40)
+	}
+	in := &chainIn{}
+	for i := 0; i < n; i++ {
+		l := genLog(c.R, c.Wide, false)
+		l.Prev = nil
+		// GetMemento panics on a reverted transaction without id: not a chain matter
+		if l.Payload.Kind == "reverted" && l.Payload.Reverted.ID == nil {
+			s := "3"
+			l.Payload.Reverted.ID = &s
+		}
+		in.Logs = append(in.Logs, l)
+	}
+	if withSchemaVersion {
+		k := 1 + c.R.Intn(2)
+		for j := 0; j < k; j++ {
+			in.Logs[c.R.Intn(n)].SV = hx(gen.Pick(c.R, []string{"v1", "1.0.0", "2024-01", "é", "v 2"}))
+		}
+	}
+	return in
+}
+
+func init() {
+	// chain: SafeChars logs without schema version (the stored chain must equal the
+	// reference chain); chainsv: at least one log carries a schema version.
+	gen.Register("chain", func(c *gen.Ctx) error {
+		return replayOr(c, "chain", func() *chainIn { return genChain(c, false) },
+			func(in *chainIn) any { return runChain(in) })
+	})
+	gen.Register("chainsv", func(c *gen.Ctx) error {
+		return replayOr(c, "chain", func() *chainIn { return genChain(c, true) },
+			func(in *chainIn) any { return runChain(in) })
 	})
 }
